@@ -598,7 +598,8 @@ def main(argv=None):
         if not hit:
             print(f"REPLAY-HOLDS function={w['qual']}: the stored call no longer violates the clause ({st})")
         return 1 if hit else 0
-    quals = [q for q, c in sorted(reg.items()) if not c.inline and not q.startswith("lemma.") and q not in NOT_EVALUABLE]
+    # nested functions ('outer.<locals>.inner') cannot be called from outside: their contracts are used (and so cross-checked) through the outer function
+    quals = [q for q, c in sorted(reg.items()) if not c.inline and not q.startswith("lemma.") and q not in NOT_EVALUABLE and ".<locals>." not in q]
     if a.prop:
         quals = [q for q in quals if a.prop in reg[q].props or any(a.prop in e.props for e in reg[q].ensures_)]
     if a.func:
